@@ -230,11 +230,7 @@ func runCheck(repo, prop, tier string, keep bool, only string, verbose bool) int
 			x.obls = append(x.obls, o)
 		}
 		for _, o := range x.obls {
-			ps := o.Props
-			if len(ps) == 0 {
-				ps = j.c.Props
-			}
-			if o.Canary || hasProp(ps, prop) {
+			if o.Canary || obligationInProperty(o, j.c, prop) {
 				all = append(all, o)
 			}
 		}
@@ -255,7 +251,7 @@ func runCheck(repo, prop, tier string, keep bool, only string, verbose bool) int
 			if o.Canary {
 				to = 3
 			}
-			script := o.Decls.Script(o.Assumptions, o.Goal, false)
+			script := "; " + o.Name + "\n" + o.Decls.Script(o.Assumptions, o.Goal, false)
 			o.Result = Solve(script, smtDir, fmt.Sprintf("o%04d", idx), to)
 			if !o.Canary && o.Result.Status != "unsat" && !o.Quantified {
 				// refutation attempt: quantifier-free projection with a model
@@ -424,6 +420,24 @@ func runCheck(repo, prop, tier string, keep bool, only string, verbose bool) int
 		os.RemoveAll(smtDir)
 	}
 	return exit
+}
+
+// obligationInProperty decides which property an obligation counts for:
+// clause tags win; lock-discipline obligations belong to C13 (and only those
+// do); everything else belongs to the function's other properties.
+func obligationInProperty(o *Obligation, c *FuncContract, prop string) bool {
+	if len(o.Props) > 0 {
+		return hasProp(o.Props, prop)
+	}
+	lockKind := strings.HasPrefix(o.Kind, "guarded-") || o.Kind == "lock-not-held" || o.Kind == "unlock-held" || o.Kind == "wait-holds-lock" || o.Kind == "runlock-held" ||
+		(o.Kind == "call-pre" && strings.Contains(o.Detail, "held("))
+	if prop == "C13" {
+		return lockKind && hasProp(c.Props, "C13")
+	}
+	if strings.HasPrefix(o.Kind, "guarded-") {
+		return false
+	}
+	return hasProp(c.Props, prop)
 }
 
 func round3(f float64) float64 { return float64(int(f*1000+0.5)) / 1000 }
